@@ -131,6 +131,14 @@ class ScriptedBroker(AsyncBroker):
                     return fut
 
                 item = AckableMessage(data=data, ack=fack)
+            elif ackkind == "deferred":
+                async def _inner(i: int = i) -> None:
+                    self.tr.add("ack", i)
+
+                def dack(i: int = i) -> Any:
+                    return _inner(i)     # plain function returning a coroutine
+
+                item = AckableMessage(data=data, ack=dack)
             elif ackkind in ("sync", "sync_fail"):
                 def sack(i: int = i, fail: bool = ackkind == "sync_fail") -> None:
                     self.tr.add("ack", i)
@@ -195,7 +203,7 @@ def build_middlewares(specs: List[Dict[str, Any]], tr: Trace) -> List[TaskiqMidd
         for hook, hs in hooks.items():
             if hook.startswith("_"):
                 continue
-            f = _mk_hook(hook, mi, bool(hs.get("async")), set(hs.get("fail_on", ())), bool(hs.get("stamp")), tr)
+            f = _mk_hook(hook, mi, hs.get("async"), set(hs.get("fail_on", ())), bool(hs.get("stamp")), tr)
             # "inherited": the hook is defined on an intermediate middleware class, the registered class only inherits it
             (base_ns if hs.get("inherited") else ns)[hook] = f
         base = type(f"MWBase{mi}", (TaskiqMiddleware,), base_ns) if base_ns else TaskiqMiddleware
@@ -203,7 +211,7 @@ def build_middlewares(specs: List[Dict[str, Any]], tr: Trace) -> List[TaskiqMidd
     return out
 
 
-def _mk_hook(hook: str, mi: int, is_async: bool, fail_on: set, stamp: bool, tr: Trace) -> Callable[..., Any]:
+def _mk_hook(hook: str, mi: int, is_async: Any, fail_on: set, stamp: bool, tr: Trace) -> Callable[..., Any]:
     if hook in ("pre_send", "pre_execute"):
         def f(self: Any, message: Any) -> Any:
             i = msg_index(message.task_id)
@@ -239,6 +247,13 @@ def _mk_hook(hook: str, mi: int, is_async: bool, fail_on: set, stamp: bool, tr: 
             return g(self, *a, **k)
 
         fa.__name__ = hook
+        if is_async == "deferred":
+            # a plain function that returns an awaitable (e.g. an async hook behind an ordinary decorator)
+            def fd(self: Any, *a: Any, **k: Any) -> Any:
+                return fa(self, *a, **k)
+
+            fd.__name__ = hook
+            return fd
         return fa
     f.__name__ = hook
     return f
